@@ -31,13 +31,13 @@ type params struct {
 
 func tierParams() params {
 	if ev.Thorough() {
-		return params{nu: 3, shapes: []int{3, 2, 1}, walkDepth: 5, crossLen: 2, a1Depth: 5, a1Canon: true, a2Depth: 4, budget: 17 * time.Minute, aRecycle: 150, bRecycle: 3, prefixLenA: 2}
+		return params{nu: 3, shapes: []int{3, 2, 1}, walkDepth: 4, crossLen: 2, a1Depth: 5, a1Canon: true, a2Depth: 4, budget: 17 * time.Minute, aRecycle: 150, bRecycle: 3, prefixLenA: 2}
 	}
 	return params{nu: 2, shapes: []int{2, 1}, walkDepth: 4, crossLen: 0, a1Depth: 4, a1Canon: true, a2Depth: 3, budget: 4 * time.Minute, aRecycle: 150, bRecycle: 3, prefixLenA: 2}
 }
 
 type item struct {
-	part   string // a | b
+	part   string // a | b | af (cfg 2 family "missed update and delete")
 	prefix []int  // a: indices of the first ops
 	assign []int
 	cfg    int
@@ -56,6 +56,9 @@ func items(p params) []item {
 			}
 		}
 	}
+	if p.a2Depth < 4 {
+		as = append(as, item{part: "af", cfg: 2})
+	}
 	for _, a := range canonicalAssignments(p.nu + 1) {
 		for _, sh := range p.shapes {
 			bs = append(bs, item{part: "b", nu: p.nu, shape: sh, assign: a})
@@ -64,9 +67,8 @@ func items(p params) []item {
 	if p.crossLen > 0 {
 		// the brute-force cross-check of state merging runs on the 2-update stream
 		for _, a := range canonicalAssignments(3) {
-			for _, sh := range []int{2, 1} {
-				bs = append(bs, item{part: "b", nu: 2, shape: sh, assign: a, cross: p.crossLen})
-			}
+			// delete-last shape: 12^2 = 144 individually executed sequences per case
+			bs = append(bs, item{part: "b", nu: 2, shape: 2, assign: a, cross: p.crossLen})
 		}
 	}
 	// interleave the two lists proportionally, so that an internal deadline cuts all parts alike
@@ -145,6 +147,20 @@ func worker(wi, wn int, p params) {
 				if res.Sample == "" && res.Histories > 40 {
 					res.Sample = c.String()
 				}
+			})
+		case "af":
+			res := out.A["2"]
+			familyMissedUpdateAndDelete(func(c acase) {
+				if cl[2] == nil || clCount[2] >= p.aRecycle {
+					if cl[2] != nil {
+						closeNodes(cl[2].nodes)
+					}
+					cl[2] = newCluster(scratch, 2, "a2")
+					clCount[2] = 0
+				}
+				clCount[2]++
+				runA(cl[2], c, res, sink)
+				res.Family++
 			})
 		case "b":
 			if reps == nil || bCount >= p.bRecycle {
@@ -256,6 +272,7 @@ func main() {
 			A[k].Queries += a.Queries
 			A[k].Nontrivial += a.Nontrivial
 			A[k].Aborted += a.Aborted
+			A[k].Family += a.Family
 			if a.Sample != "" && len(samples) < 4 {
 				samples = append(samples, "a "+a.Sample)
 			}
@@ -309,6 +326,7 @@ func main() {
 	r.Set("a2_histories_with_delete_and_tag_kept_by_merge", A["2"].Nontrivial)
 	r.Set("a1_histories_modulo_tag_symmetry", p.a1Canon)
 	r.Set("a_histories_stopped_at_first_violation", A["1"].Aborted+A["2"].Aborted)
+	r.Set("a2_extra_depth4_histories_missed_update_and_delete_family", A["2"].Family)
 	r.Set("a_queries_judged", A["1"].Queries+A["2"].Queries)
 	r.Set("d_dedup_inputs", dres.Cases)
 	r.Set("d_dedup_inputs_with_two_or_more_answering_nodes", dres.Nontriv)
